@@ -215,7 +215,9 @@ def gen_pen(rng):
             else:
                 v.append(round(rng.uniform(0, 1.2) * s, 4))
         vals.append(v)
-    return {'kind': 'pen', 'tabs': tabs, 'vals': vals}
+    # the receiver may have served another mode just before (mode loop): its tables list other impairments
+    prev = [gen_table(rng, sc) for sc in scales] if rng.random() < 0.5 else None
+    return {'kind': 'pen', 'tabs': tabs, 'vals': vals, 'prev': prev}
 
 
 def load_mode(tabs, **kw):
@@ -242,11 +244,20 @@ def drive_pen(case):
             norm.append(list(zip(map(float, pen[imp]['up_to_boundary']), map(float, pen[imp]['penalty_value']))))
         else:
             norm.append(None)
-    t = Transceiver(uid='rx')
-    t.chromatic_dispersion, t.pmd, t.pdl = (np.array(v) for v in case['vals'])
+    def fresh():
+        t = Transceiver(uid='rx')
+        t.chromatic_dispersion, t.pmd, t.pdl = (np.array(v) for v in case['vals'])
+        return t
+    n = len(case['vals'][0])
+    t = fresh()
+    if case.get('prev'):
+        t.calc_penalties(load_mode(case['prev'])['penalties'])
     t.calc_penalties(pen)
-    tot = np.broadcast_to(t.total_penalty, (len(case['vals'][0]),))
-    return {'norm': norm, 'total': [float(x) for x in tot]}
+    tot = np.broadcast_to(t.total_penalty, (n,))
+    t0 = fresh()
+    t0.calc_penalties(pen)
+    return {'norm': norm, 'total': [float(x) for x in tot], 'keys': sorted(t.penalties),
+            'total_fresh': [float(x) for x in np.broadcast_to(t0.total_penalty, (n,))]}
 
 
 def tab_lit(pts):
@@ -278,6 +289,34 @@ def judge_pen(ctx, case, impl, model):
         if not close_db(a, bv):
             ctx.corr_break('corr:Verdict.calc_penalties', f'channel {k}: impl {a}, model {bv}', case, impl=a, model=bv)
             return
+    # oracle: the tables kept at load are the listed ones: every listed impairment, every listed point (+ at most (0,0))
+    for j in range(3):
+        raw, it = case['tabs'][j], impl['norm'][j]
+        if bool(raw) != (it is not None):
+            ctx.violation('normalisation_drops_impairment',
+                          f'{IMPS[j]}: {len(raw)} point(s) listed in the equipment file, table after load: {it}', case)
+            return
+        if raw:
+            rest = list(it)
+            for x, y in raw:
+                if (float(x), float(y)) in rest:
+                    rest.remove((float(x), float(y)))
+                else:
+                    rest = None
+                    break
+            if rest is None or rest not in ([], [(0.0, 0.0)]):
+                ctx.violation('normalisation_changes_points', f'{IMPS[j]}: listed {raw}, loaded {it}', case)
+                return
+    # oracle: the penalties of the receiver are those of the tables just applied, whatever it served before
+    want = sorted(imp for imp, t in zip(IMPS, case['tabs']) if t)
+    if impl['keys'] != want:
+        ctx.violation('stale_penalty_entries', f'receiver penalties {impl["keys"]} after calc_penalties with tables for {want} '
+                      f'(previous tables: {case.get("prev")})', case)
+        return
+    if any(not close_db(a, b, 1e-12) for a, b in zip(impl['total'], impl['total_fresh'])):
+        ctx.violation('penalty_depends_on_previous_mode', f'total penalty {impl["total"]} after a previous mode, '
+                      f'{impl["total_fresh"]} on a fresh receiver', case)
+        return
     # oracle: a value outside [first, last] listed boundary gives an infinite penalty
     for j in range(3):
         if impl['norm'][j] is None:
@@ -317,7 +356,22 @@ def gen_env(rng, nmax=4, nch_max=12):
             'only_custom_amps': rng.random() < 0.75,
             'pmax': [rng.choice([6, 8, 10, 12, 14, 17, 21]) for _ in AMP_SHAPES],
             'add_drop_osnr': rng.choice([30, 33, 38, 45]), 'roadm_pmd': rng.choice([0, 1e-12, 3e-12]),
-            'roadm_pdl': rng.choice([0, 0.5, 1.5]), 'roadm_target': rng.choice([-20, -20, -18, -23])}
+            'roadm_pdl': rng.choice([0, 0.5, 1.5]), 'roadm_target': rng.choice([-20, -20, -18, -23]),
+            'fibers': gen_fibers(rng), 'span_types': [rng.randrange(3) for _ in range(8)]}
+
+
+DPF_FREQ = [190.9e12, 191.3e12, 191.45e12, 191.6e12, 191.75e12, 191.95e12, 192.2e12, 196.7e12]
+
+
+def gen_fibers(rng):
+    """three fibre types per environment: plain SSMF, one with a dispersion slope (CD differs from channel to channel,
+    monotonically), one with a tabulated dispersion per frequency (any profile over the band)"""
+    r = rng.random()
+    if r < 0.35:
+        return [{'kind': 'flat'}, {'kind': 'flat'}, {'kind': 'flat'}]
+    slope = rng.choice([-1, 1]) * rng.choice([58.0, 90.0, 300.0, 1500.0])
+    vals = [round(rng.uniform(1.2e-5, 2.2e-5), 8) for _ in DPF_FREQ]
+    return [{'kind': 'flat'}, {'kind': 'slope', 'slope': slope}, {'kind': 'dpf', 'values': vals}]
 
 
 def eqpt_json(env, modes):
@@ -343,8 +397,22 @@ def eqpt_json(env, modes):
     return e
 
 
+def fiber_params(env, n):
+    """extra element parameters of span number n: dispersion slope / tabulated dispersion (element level in gnpy)"""
+    fibers, types = env.get('fibers') or [], env.get('span_types') or []
+    if not fibers or not types:
+        return {}
+    f = fibers[types[n % len(types)]]
+    if f['kind'] == 'slope':
+        return {'dispersion_slope': f['slope']}
+    if f['kind'] == 'dpf':
+        return {'dispersion_per_frequency': {'value': f['values'], 'frequency': DPF_FREQ}}
+    return {}
+
+
 def topo_json(env):
     els, cx = [], []
+    nspan = 0
     for i in range(env['nsites']):
         x = chr(65 + i)
         els += [{'uid': f'trx {x}', 'type': 'Transceiver'}, {'uid': f'roadm {x}', 'type': 'Roadm'}]
@@ -355,8 +423,9 @@ def topo_json(env):
             for k, ln in enumerate(sp):
                 fu = f'fiber {s}{t}_{k}'
                 els.append({'uid': fu, 'type': 'Fiber', 'type_variety': 'SSMF',
-                            'params': {'length': ln, 'length_units': 'km', 'loss_coef': 0.2, 'con_in': None,
-                                       'con_out': None}})
+                            'params': dict({'length': ln, 'length_units': 'km', 'loss_coef': 0.2, 'con_in': None,
+                                            'con_out': None}, **fiber_params(env, nspan))})
+                nspan += 1
                 cx.append((prev, fu))
                 prev = fu
             cx.append((prev, f'roadm {t}'))
@@ -510,7 +579,8 @@ def gen_decision(rng, big=False):
     return {'kind': 'decision', 'env': env, 'modes': modes, 'mode': mode, 'spacing': spacing, 'src': src, 'dst': dst,
             'bidir': rng.random() < 0.4, 'tx_power_dbm': rng.choice([None, None, 0, -3, 3, 10]),
             'deltas': [rng.choice([-6, -1, -0.02, -0.01, 0, 0.01, 0.02, 0.5, 3, 9]) for _ in modes],
-            'tabscale': [[rng.choice([0.9, 0.999, 1.0, 1.0, 1.001, 1.001, 1.2, 1.2, 3, 3, 3, 10, 10, 10, 10, 10]) for _ in range(3)]
+            'tabscale': [[rng.choice([0.9, 0.999, 1.0, 1.0, 1.001, 1.001, 1.2, 1.2, 3, 3, 3, 10, 10, 10, 10, 10, -0.25, -0.5, -0.75, -0.9])
+                          for _ in range(3)]
                          for _ in modes],
             'tabseed': rng.randrange(1 << 30), 'nosnr': auto and rng.random() < 0.04}
 
@@ -543,7 +613,12 @@ def complete_modes(E, case, path, req_probe):
             if rng.random() < 0.3 or top <= 0:
                 tabs.append([])
                 continue
-            hi = top if sc == 1.0 else float(f'{top * sc:.6g}')
+            if sc < 0:
+                # the table ends INSIDE the spread of the channels: some channels are inside, the others outside
+                lo_v = min(fr[key])
+                hi = top if top == lo_v else lo_v + (-sc) * (top - lo_v)
+            else:
+                hi = top if sc == 1.0 else float(f'{top * sc:.6g}')
             pts = [[hi, round(rng.uniform(0.2, 2.5), 2)]]
             if rng.random() < 0.6:
                 pts.append([float(f'{hi * rng.uniform(0.2, 0.8):.4g}'), round(rng.uniform(0, 1), 2)])
@@ -635,7 +710,7 @@ def drive_decision(case):
         orig_cp(self, penalties)
         if self.uid == (dest_uid if phase[0] == 'fwd' else src_uid):
             evals.append({'dir': phase[0], 'mode': pen_ids.get(id(penalties)), 'it': len(iters_log) - 1,
-                          'snap': rx_snapshot(self)})
+                          'snap': rx_snapshot(self), 'pen_keys': sorted(self.penalties), 'arg_keys': sorted(penalties)})
 
     def ci(*a, **kw):
         iters_log.append([float(kw['baud_rate']), float(kw.get('delta_pdb', 0) or 0)])
@@ -864,6 +939,24 @@ def own_oracles(ctx, case, obs):
     margin = obs['margin']
     if not obs.get('network_untouched', True):
         ctx.violation('designed_network_modified', 'an amplifier of the designed network changed its gain while the request was evaluated', pub)
+    # the library as loaded lists exactly the impairments of the equipment description
+    for m, lm0 in zip(modes, obs['_lib']):
+        want = sorted(imp for imp, t in zip(IMPS, m['tabs']) if t)
+        if sorted(lm0['penalties']) != want:
+            ctx.violation('normalisation_drops_impairment', f"{m['format']}: equipment lists {want}, loaded {sorted(lm0['penalties'])}", pub)
+            break
+    # every evaluation of the receiver uses the penalties of the mode being evaluated, and only those
+    for e in obs.get('evals', []):
+        if e['pen_keys'] != e['arg_keys']:
+            ctx.violation('stale_penalty_entries', f"evaluation of mode m{e['mode']} ({e['dir']}): receiver holds penalties "
+                          f"{e['pen_keys']}, the mode lists {e['arg_keys']}", pub)
+            break
+        if e['mode'] is not None and not case.get('nosnr'):
+            exp = pen_py(obs['_lib'][e['mode']]['penalties'], e['snap'])
+            if any(not close_db(float(a), float(b), 1e-9) for a, b in zip(e['snap']['pen'], exp)):
+                ctx.violation('penalty_not_of_current_mode', f"evaluation of mode m{e['mode']} ({e['dir']}): total penalty "
+                              f"{e['snap']['pen'][:3]} but its tables give {[float(x) for x in exp[:3]]}", pub)
+                break
     if case.get('nosnr'):
         if any(m['min_spacing'] <= case['spacing'] for m in modes) and obs['reason'] != 'NO_COMPUTED_SNR':
             ctx.violation('no_snr_not_reported', f"receiver without figures but blocking_reason {obs['reason']}", pub)
